@@ -42,7 +42,7 @@ def run(ck):
     # perft counts and castling availability along a line of play also rest on the successor function: the rights / board updates of C02
     from . import c02 as _c02
     _ctx = {}
-    for _r in (_c02.collect_sets, _c02.u0_u4_piece_updates, _c02.u1_rook_relocation, _c02.u2_rights):
+    for _r in (_c02.collect_sets, _c02.u0_u4_piece_updates, _c02.u1_rook_relocation, _c02.u2_rights, _c02.u3_u5_state_fields):
         ck.run_rule(_r, _ctx)
     # king safety, castling through attack and the legality filter read the opponent's attack map: its construction (C10's B6, B7)
     from . import c10 as _c10
